@@ -192,14 +192,15 @@ def monitor_selftest(lines):
     """Corrupt one recorded run in three ways; TLC must reject each:
     (a) a published status is changed, (b) the attempt counter of a loop line is changed (conformance),
     (c) the line of a failed answer is dropped (so the loop is seen to consume an answer nobody gave)."""
-    runs = [r for r in split_runs(lines) if sum(1 for l in r if l["k"] == "loop" and l["pubs"] == ["pending"]) >= 2]
+    runs = [r for r in split_runs(lines) if sum(1 for l in r if l["k"] == "loop" and len(l["pubs"]) == 1) >= 2
+            and any(l["k"] == "ret" for l in r)]
     if not runs:
-        return {"ok": False, "why": "no run with two pending publications"}
+        return {"ok": False, "why": "no run with two status publications"}
     run = runs[len(runs) // 2]
     a = [dict(l) for l in run]
     for l in a:
-        if l["k"] == "loop" and l["pubs"] == ["pending"]:
-            l["pubs"] = ["deployed"]
+        if l["k"] == "loop" and len(l["pubs"]) == 1:
+            l["pubs"] = ["deployed" if l["pubs"] == ["pending"] else "pending"]
             break
     fa, _ = judge("monitor", "MonitorTrace", MON_INV, a)
     b = [dict(l) for l in run]
@@ -500,12 +501,68 @@ def part_watchdog(vh, tier, seed, work):
                 "binding_selftest": watchdog_selftest(lines)})
     return cov, findings, drift, {"scripts": sp, "seed": seed}
 
+
+# ------------------------------------------------------------------------------------------------ part: lease
+
+def lease_selftest(lines):
+    """(a) a marker's broadcasts are hidden; (b) the manager state of a line is changed (conformance)."""
+    runs = [r for r in split_runs(lines) if any(l["k"] == "marker" and l["wloops"] >= 1 for l in r)]
+    if not runs:
+        return {"ok": False, "why": "no run with an answered marker"}
+    a = [dict(l) for l in runs[0]]
+    for l in a:
+        if l["k"] == "marker" and l["wloops"] >= 1:
+            l["bcasts"] = 0
+            break
+    fa, _ = judge("lease", "LeaseTrace", "LeaseTrace.cfg", a)
+    b = [dict(l) for l in runs[0]]
+    for l in b:
+        if l["k"] == "dret" and l["mgr"] == "deploy-complete":
+            l["mgr"] = "deploy-active"
+            break
+    fb, _ = judge("lease", "LeaseTrace", "LeaseTraceConform.cfg", b)
+    fb2, _ = judge("lease", "LeaseTrace", "LeaseTrace.cfg", b)
+    res = {"hide_broadcasts": fa[0].invariant if fa else None, "corrupt_manager_state": (fb[0].invariant if fb else (fb2[0].invariant if fb2 else None))}
+    res["ok"] = bool(fa) and bool(fb or fb2)
+    return res
+
+
+def part_lease(vh, tier, seed, work):
+    cov = {"configs": [j1("Lease", "MC_lease_intended.cfg", "lease"), j1("Lease", "MC_lease_asfound.cfg", "lease")]}
+    r = vlib.tlc(SPECDIR, "Lease", "MC_lease_defect.cfg", workers=1, timeout=600, heap=HEAP, deadlock=False)
+    cov["model_reproduces_asfound_defect"] = (r.violated == "OneWithdrawalPerMarker")
+    cfg = open(os.path.join(SPECDIR, "MC_lease_gen.cfg")).read()
+    if tier != "quick":
+        cfg = cfg.replace("MaxManifests = 3  MaxMarkers = 2", "MaxManifests = 4  MaxMarkers = 3")
+    r = vlib.tlc(SPECDIR, "LeaseGen", "g.cfg", workers=1, timeout=900, heap=HEAP, deadlock=False, extra_files={"g.cfg": cfg})
+    vlib.tlc_require_ok(r, "J2 LeaseGen")
+    byk = {tuple((o["op"], o["v"]) for o in s): s for s in printed(r.out, "SCRIPT")}
+    keys = sorted(byk)
+    scripts = [byk[a] for i, a in enumerate(keys) if a and not (i + 1 < len(keys) and keys[i + 1][:len(a)] == a)]
+    sp, tp = [os.path.join(work, n) for n in ("lease-scripts.json", "lease-trace.ndjson")]
+    json.dump({"scripts": scripts}, open(sp, "w"))
+    out = vh_run(vh, ["lease-replay", "--scripts", sp, "--out", tp], "lease-replay")
+    log("lease replay:   ", out.strip().splitlines()[-1])
+    lines = read_trace(tp)
+    findings, states = judge("lease", "LeaseTrace", "LeaseTrace.cfg", lines)
+    for c in ("LeaseTraceKnownA.cfg", "LeaseTraceKnownB.cfg"):
+        fs, _ = judge("lease", "LeaseTrace", c, lines, max_findings=1)
+        findings += fs
+    drift, _ = judge("lease", "LeaseTrace", "LeaseTraceConform.cfg", lines)
+    cov.update({"gen_states": r.distinct, "scripts_replayed": len(scripts), "free_runs": 0, "trace_lines": len(lines),
+                "trace_states_judged": states, "markers_published": sum(1 for l in lines if l["k"] == "marker"),
+                "max_withdrawal_loops_alive": max(l["wloops"] for l in lines),
+                "samples": [" ".join(o["op"] + (":" + o["v"] if o["v"] else "") for o in s) for s in scripts[:3]],
+                "binding_selftest": lease_selftest(lines)})
+    return cov, findings, drift, {"scripts": sp, "seed": seed}
+
 # ------------------------------------------------------------------------------------------------ the check
 
 PARTS = [("monitor", part_monitor), ("withdraw", part_withdraw), ("balance", part_balance),
-         ("watchdog", part_watchdog)]
+         ("watchdog", part_watchdog), ("lease", part_lease)]
 TRACE = {"monitor": ("MonitorTrace", MON_INV), "withdraw": ("WithdrawTrace", "WithdrawTrace.cfg"),
-         "balance": ("BalanceTrace", "BalanceTrace.cfg"), "watchdog": ("WatchdogTrace", "WatchdogTrace.cfg")}
+         "balance": ("BalanceTrace", "BalanceTrace.cfg"), "watchdog": ("WatchdogTrace", "WatchdogTrace.cfg"),
+         "lease": ("LeaseTrace", "LeaseTrace.cfg")}
 
 
 def run(pid, tier, seed, replay):
@@ -546,13 +603,13 @@ def run(pid, tier, seed, replay):
             seen.add((f.part, f.invariant))
             violations.append(to_violation(pid, f, dict(meta, tier=tier)))
     bad = [n for n, s in selftests.items() if not (s and s.get("ok"))]
-    if bad:
+    if bad and not violations:      # (on a broken loop the recorded runs may not offer what the self-test corrupts)
         raise vlib.Inconclusive("binding self-test failed for %s: %s" % (bad, json.dumps(selftests)))
     coverage.update({"states": states, "transitions": transitions, "traces_validated_against_impl": traces,
                      "evaluations": evals, "drift_steps": drift_total,
                      "distinct_nontrivial": {"count": traces, "rule": "runs (scripts enumerated by TLC and free-running "
                                              "seeded runs) executed on the real loops and judged by TLC"},
-                     "binding_selftest": {"ok": True, "parts": selftests},
+                     "binding_selftest": {"ok": not bad, "parts": selftests},
                      "samples": coverage["parts"]["monitor"].get("samples", [])})
     return vlib.finish(pid, tier, seed, "model_checking", coverage, t0, violations,
                        assumptions=["cluster client, chain tx client, bank query client are scripted fakes",
